@@ -22,13 +22,27 @@ var pkgs = []string{"authenticode", "pkcs7", "efi/signature", "efi/util", "efiva
 const simyieldSrc = `// Package simyield is inserted by /verif/tools/yieldpass into a scratch copy only.
 package simyield
 
+import "runtime"
+
 // Hook is set by the simulator while a scheduled run is in progress.
 var Hook func(site string)
+
+// BlockHook is called while a lock could not be taken: the scheduler has to
+// let another client run (the holder is parked at a yield point).
+var BlockHook func(site string)
 
 func Y(site string) {
 	if h := Hook; h != nil {
 		h(site)
 	}
+}
+
+func B(site string) {
+	if h := BlockHook; h != nil {
+		h(site)
+		return
+	}
+	runtime.Gosched()
 }
 `
 
@@ -65,11 +79,64 @@ func main() {
 	fmt.Printf("yieldpass: %d yield sites inserted in %d files of %v\n", total, files, pkgs)
 }
 
+func isLockLoop(f *ast.ForStmt) bool {
+	if len(f.Body.List) != 1 {
+		return false
+	}
+	es, ok := f.Body.List[0].(*ast.ExprStmt)
+	if !ok {
+		return false
+	}
+	c, ok := es.X.(*ast.CallExpr)
+	if !ok {
+		return false
+	}
+	sel, ok := c.Fun.(*ast.SelectorExpr)
+	if !ok {
+		return false
+	}
+	id, ok := sel.X.(*ast.Ident)
+	return ok && id.Name == "simyield" && sel.Sel.Name == "B"
+}
+
 func call(site string) ast.Stmt {
 	return &ast.ExprStmt{X: &ast.CallExpr{
 		Fun:  &ast.SelectorExpr{X: ast.NewIdent("simyield"), Sel: ast.NewIdent("Y")},
 		Args: []ast.Expr{&ast.BasicLit{Kind: token.STRING, Value: strconv.Quote(site)}},
 	}}
+}
+
+// rewriteLocks turns `x.Lock()` / `x.RLock()` statements into cooperative
+// acquisition: `for !x.TryLock() { simyield.B(site) }`, so that a client that
+// waits for a lock held by a parked client hands the processor over instead of
+// blocking the whole simulation.
+func rewriteLocks(list []ast.Stmt, site string, n *int) {
+	for i, st := range list {
+		es, ok := st.(*ast.ExprStmt)
+		if !ok {
+			continue
+		}
+		call, ok := es.X.(*ast.CallExpr)
+		if !ok || len(call.Args) != 0 {
+			continue
+		}
+		sel, ok := call.Fun.(*ast.SelectorExpr)
+		if !ok || (sel.Sel.Name != "Lock" && sel.Sel.Name != "RLock") {
+			continue
+		}
+		try := "TryLock"
+		if sel.Sel.Name == "RLock" {
+			try = "TryRLock"
+		}
+		list[i] = &ast.ForStmt{
+			Cond: &ast.UnaryExpr{Op: token.NOT, X: &ast.CallExpr{Fun: &ast.SelectorExpr{X: sel.X, Sel: ast.NewIdent(try)}}},
+			Body: &ast.BlockStmt{List: []ast.Stmt{&ast.ExprStmt{X: &ast.CallExpr{
+				Fun:  &ast.SelectorExpr{X: ast.NewIdent("simyield"), Sel: ast.NewIdent("B")},
+				Args: []ast.Expr{&ast.BasicLit{Kind: token.STRING, Value: strconv.Quote(site + ":lock")}},
+			}}}},
+		}
+		*n++
+	}
 }
 
 func instrument(path, pkg string) (int, error) {
@@ -91,9 +158,24 @@ func instrument(path, pkg string) (int, error) {
 			name = strings.TrimPrefix(b.String(), "*") + "." + name
 		}
 		site := pkg + "." + name
+		// locks first (the loops this inserts must not get a yield of their own)
+		ast.Inspect(fd.Body, func(nd ast.Node) bool {
+			switch s := nd.(type) {
+			case *ast.BlockStmt:
+				rewriteLocks(s.List, site, &n)
+			case *ast.CaseClause:
+				rewriteLocks(s.Body, site, &n)
+			case *ast.CommClause:
+				rewriteLocks(s.Body, site, &n)
+			}
+			return true
+		})
 		ast.Inspect(fd.Body, func(nd ast.Node) bool {
 			switch s := nd.(type) {
 			case *ast.ForStmt:
+				if isLockLoop(s) {
+					return true
+				}
 				s.Body.List = append([]ast.Stmt{call(fmt.Sprintf("%s:loop@%d", site, fset.Position(s.Pos()).Line))}, s.Body.List...)
 				n++
 			case *ast.RangeStmt:
